@@ -12,7 +12,7 @@ for l in sys.stdin:
     k = (r['class'], w, (r.get('op') or ['-'])[0])
     c[k] += 1
     ex.setdefault(k, r)
-for k, n in c.most_common(40):
+for k, n in c.most_common(int(sys.argv[2]) if len(sys.argv) > 2 else 8):
     print(n, k)
-    print('    hist', json.dumps(ex[k].get('hist')), 'op', ex[k].get('op'))
+    print('    hist', json.dumps(ex[k].get('hist'))[:400], 'op', ex[k].get('op'))
 print(summary)
